@@ -1,0 +1,54 @@
+//! Child module of `crate::divan` (only with `--cfg divan_verif`): sets the
+//! runner fields that otherwise only the command line can set.
+
+use super::*;
+use crate::__verif::{bench::VAction, pure::FilterSpec};
+
+/// Settings without a public builder method.
+#[derive(Clone, Debug, Default)]
+pub struct RunnerCfg {
+    /// The action `Divan::main` performs.
+    pub action: Option<VAction>,
+    /// Use the (possibly overridden) timestamp counter instead of the OS.
+    pub timer_tsc: bool,
+    /// 0 = kind, 1 = name, 2 = location.
+    pub sorting_attr: u8,
+    pub reverse_sort: bool,
+    /// Inserted in order; see [`FilterSpec`].
+    pub filters: Vec<FilterSpec>,
+}
+
+/// Applies `cfg` to `divan`, whose other options were set through the public
+/// builder methods.
+pub fn configure(mut divan: Divan, cfg: &RunnerCfg) -> Result<Divan, String> {
+    if let Some(action) = cfg.action {
+        divan.action = action.to_action();
+    }
+    divan.timer = if cfg.timer_tsc { TimerKind::Tsc } else { TimerKind::Os };
+    divan.sorting_attr = crate::__verif::pure::sorting_attr(cfg.sorting_attr);
+    divan.reverse_sort = cfg.reverse_sort;
+    for (inclusive, exact, pattern) in &cfg.filters {
+        let filter = if *exact {
+            Filter::Exact(pattern.clone())
+        } else {
+            Filter::Regex(Regex::new(pattern).map_err(|e| e.to_string())?)
+        };
+        if *inclusive {
+            divan.filters.include(filter);
+        } else {
+            divan.filters.exclude(filter);
+        }
+    }
+    Ok(divan)
+}
+
+/// `Divan::run_action`.
+pub fn run_action(divan: &Divan, action: VAction) {
+    divan.run_action(action.to_action());
+}
+
+/// Empties both global registries.
+pub fn clear_registry() {
+    crate::entry::BENCH_ENTRIES.verif_clear();
+    crate::entry::GROUP_ENTRIES.verif_clear();
+}
